@@ -282,6 +282,30 @@ def check(c):
                 good = (kind == b'o' and val <= 4096 and content.replace(',', '') == str(2 ** val)) or (kind == b'e' and val >= 2 ** 32) or (val > 4096)
             if not good:
                 c.violation('superscript-value', {'kind': 'impl-vs-spec', 'input': txt, 'input_codepoints': cps(txt), 'impl': io2[2 * j + bi], 'expected_exponent': val, 'overflow': overflow})
+    # ---- completions: every (display, insert) the implementation returns must be what the
+    # model of the `add` closure computes for (name, last word of the prefix) ----
+    comp_prefixes = ['k', 'kilo', 'me', 'met', 'µ', 'micro', 'deg', '°', 'x k', 'é', 'a b mi', 'M', 'light', 'lightyea', 'US', 'percen', 'sq', 'cub']
+    co = c.impl('crash', [sx([Sym('complete'), cps(t)]) for t in comp_prefixes], plain=True)
+    ml2 = []
+    exp2 = []
+    for t, o in zip(comp_prefixes, co):
+        po = try_parse(o)
+        if not (isinstance(po, list) and po and po[0] == b'ok'):
+            c.violation('crash-complete', {'kind': 'impl-crash', 'op': 'complete', 'input': t, 'outcome': o}); continue
+        last = t.rsplit(' ', 1)[-1]
+        prepend = t.rsplit(' ', 1)[0] if ' ' in t else ''
+        for disp, ins in po[2][:40]:
+            d = ''.join(map(chr, disp)); i_ = ''.join(map(chr, ins))
+            name = d[len(prepend):] if d.startswith(prepend) else d
+            ml2.append(sx([Sym('completion-of'), name.encode(), last.encode()]))
+            exp2.append((t, name, i_))
+    if ml2:
+        mo2 = c.model('crash', ml2)
+        for (t, name, ins), o in zip(exp2, mo2):
+            c.note_case('complete|%s|%s' % (t, name), True, 'completion')
+            want = sx([b'ok', [name.encode(), ins.encode()]])
+            if o != want:
+                c.violation('completion-differs-from-model', {'kind': 'impl-vs-model', 'prefix': t, 'name': name, 'impl_insert': ins, 'model': o}, no_input=True)
     c.sample({'op': 'eval', 'cfg': meta[len(base) + 40][1], 'input': meta[len(base) + 40][3]})
     c.sample({'op': 'prefixes', 'input': sample[10][1]})
     c.sample({'op': 'superscript', 'digits': sup_cases[6], 'model': mo[6], 'impl(2^..)': io2[13]})
